@@ -1311,4 +1311,41 @@ theorem Inv.on_steps {s s' : State} (h : Inv s) (st : Steps s s') : Inv s' := by
 
 theorem Reach.inv {s : State} (h : Reach s) : Inv s := Inv.init.on_steps h
 
+/-! ### the ghost list of issued unions only grows -/
+
+theorem issued_splitChild (s : State) (t c : Item) : (splitChild s t c).issued = s.issued := by
+  unfold splitChild; split <;> rfl
+
+theorem issued_deliver (s : State) (i : Nat) : (deliver s i).issued = s.issued := by
+  unfold deliver
+  split
+  · rfl
+  · next m _ =>
+    cases m with
+    | walk ex t c op oi ork oa ob =>
+      show (onWalk _ ex t c op oi ork oa ob).issued = _
+      rw [onWalk_eq]
+      cases walkCase _ _ t op oi ork <;> cases ex <;> simp [issued_splitChild]
+    | setp x z => simp [handle, onSetp]
+    | resolve p x k =>
+      show (onResolve _ p x k).issued = _
+      rw [onResolve_eq]
+      unfold increaseRank
+      repeat' split
+      all_goals simp
+
+theorem issued_compress (s : State) (x : Item) : (compress s x).issued = s.issued := by
+  show (if parent (visit s x) x = x then visit s x else reparent (visit s x) x (root (visit s x) x)).issued = _
+  split <;> simp
+
+theorem issued_mono {s s' : State} (st : Steps s s') : ∀ e, e ∈ s.issued → e ∈ s'.issued := by
+  induction st with
+  | refl => exact fun _ h => h
+  | tail _ st ih =>
+    intro e he
+    cases st with
+    | issue ex a b => exact List.mem_cons_of_mem _ (ih e he)
+    | deliver i => rw [issued_deliver]; exact ih e he
+    | compress x => rw [issued_compress]; exact ih e he
+
 end YgmVerif.DSet
